@@ -187,6 +187,25 @@ func c10Assign(fd *ast.FuncDecl, file, lhs string, n int) (ast.Expr, token.Token
 	return out, tok
 }
 
+// c10Assign2 returns the right-hand side of the first `a, b := rhs` of the function.
+func c10Assign2(fd *ast.FuncDecl, file, a, b string) ast.Expr {
+	var out ast.Expr
+	ast.Inspect(fd.Body, func(nd ast.Node) bool {
+		as, ok := nd.(*ast.AssignStmt)
+		if !ok || len(as.Lhs) != 2 || len(as.Rhs) != 1 || out != nil {
+			return true
+		}
+		if c10Norm(nodeString(as.Lhs[0])) == a && c10Norm(nodeString(as.Lhs[1])) == b {
+			out = as.Rhs[0]
+		}
+		return true
+	})
+	if out == nil {
+		fatalf("c10: %s: %s: assignment `%s, %s := …` not found", file, fd.Name.Name, a, b)
+	}
+	return out
+}
+
 // c10KeyValue returns the value of the n-th composite-literal field `key: value` in the function.
 func c10KeyValue(fd *ast.FuncDecl, file, key string, n int) ast.Expr {
 	var out ast.Expr
@@ -231,6 +250,24 @@ func c10Call(fd *ast.FuncDecl, file, callee string, n int) []ast.Expr {
 		fatalf("c10: %s: %s: call #%d of `%s` not found", file, fd.Name.Name, n, callee)
 	}
 	return out.Args
+}
+
+// the callees of the given set in the order in which their calls appear in the source of the function
+func c10CallOrder(fd *ast.FuncDecl, callees []string) []string {
+	want := map[string]bool{}
+	for _, c := range callees {
+		want[c] = true
+	}
+	var out []string
+	ast.Inspect(fd.Body, func(nd ast.Node) bool {
+		if c, ok := nd.(*ast.CallExpr); ok {
+			if f := c10Norm(nodeString(c.Fun)); want[f] {
+				out = append(out, f)
+			}
+		}
+		return true
+	})
+	return out
 }
 
 func c10ArgStrings(args []ast.Expr) []string {
@@ -434,6 +471,17 @@ func genC10() {
 	}
 	o.def(ma, "remapStep", "Remap, what is added to addr in every iteration", e, false, nil)
 	o.strs("remapCall", "Remap: arguments of allocateMultiplePagesWithGivenVAddrs", c10ArgStrings(c10Call(fd, ma, "a.allocateMultiplePagesWithGivenVAddrs", 0)))
+	// the repaired loop body of allocateMultiplePagesWithGivenVAddrs: the replaced physical page goes back to
+	// the device that owns it, once the page-table entry has been updated, when the allocator's record of the
+	// virtual address belongs to the calling process
+	fd = c10Func(fma, ma, "memoryAllocatorImpl", "allocateMultiplePagesWithGivenVAddrs")
+	rel := c10Assign2(fd, ma, "replaced", "found")
+	own, _ := c10Assign(fd, ma, "owner", 0)
+	o.strs("remapRelease", "allocateMultiplePagesWithGivenVAddrs: the record read before it is overwritten; the release guard; the owning device; the page released",
+		[]string{c10Norm(nodeString(rel)), c10Norm(nodeString(c10IfCond(fd, ma, 0))), c10Norm(nodeString(own)),
+			c10Norm(nodeString(c10Call(fd, ma, "owner.MemState.addSinglePAddr", 0)[0]))})
+	o.strs("remapLoopOrder", "allocateMultiplePagesWithGivenVAddrs: the calls of the loop body in source order", c10CallOrder(fd,
+		[]string{"a.pageTable.Update", "owner.MemState.addSinglePAddr", "device.allocateMultiplePages"}))
 	fd = c10Func(fma, ma, "memoryAllocatorImpl", "Free")
 	fr = c10For(fd, ma, 0)
 	v, ie := c10ForInit(fr, ma)
@@ -521,7 +569,11 @@ func genC10() {
 		fatalf("c10: %s: allocateMultiplePages: block is not advanced with +=", bm)
 	}
 	o.def(bm, "buddyPageStep", "allocateMultiplePages, distance of the pages handed out", e, false, nil)
-	o.def(bm, "buddyTakeMergeGuard", "allocateMultiplePages, the parent's merge bit is toggled when", c10IfCond(fd, bm, 2), true, nil)
+	o.def(bm, "buddyZeroGuard", "allocateMultiplePages, the request is answered at once (no block, no tracker) when", c10IfCond(fd, bm, 0), true, nil)
+	if g, ok := fd.Body.List[0].(*ast.IfStmt); !ok || g.Else != nil || len(g.Body.List) != 1 || c10Norm(nodeString(g.Body.List[0])) != "returnnil" {
+		fatalf("c10: %s: allocateMultiplePages: the first statement is not `if … { return nil }`", bm)
+	}
+	o.def(bm, "buddyTakeMergeGuard", "allocateMultiplePages, the parent's merge bit is toggled when", c10IfCond(fd, bm, 3), true, nil)
 	o.strs("buddyTakeMergeArg", "allocateMultiplePages: index of that merge bit", c10ArgStrings(c10Call(fd, bm, "bms.updateMergeListBitField", 0)))
 	o.strs("buddyLiterals", "allocateMultiplePages: every integer literal", c10Literals(fd))
 	fd = c10Func(fbm, bm, "deviceBuddyMemoryState", "sizeOfLevel")
